@@ -153,10 +153,17 @@ class SimThreadPool:
                 return SimPolicy.world.mt.submit_worker(f, fn, a, k)
 
         w = SimPolicy.world
+        # resource fault: only `small_stack` more frames for whatever runs on the worker thread.
+        # The recursion limit is interpreter-wide, so the caller must not execute a single
+        # Python-level call while it is lowered: it parks itself in two C-level lock operations
+        # (go.release(); done.acquire()) issued from this very frame.
+        extra = getattr(w, "small_stack", None)
+        go, done = threading.Lock(), threading.Lock()
+        go.acquire()
+        done.acquire()
 
         def run():
-            # resource fault: only `small_stack` more frames for whatever runs on this thread
-            extra = getattr(w, "small_stack", None)
+            go.acquire()
             normal = sys.getrecursionlimit()
             if extra:
                 sys.setrecursionlimit(len(inspect.stack(0)) + extra)
@@ -167,12 +174,14 @@ class SimThreadPool:
             finally:
                 if extra:
                     sys.setrecursionlimit(normal)
+                done.release()
 
         # the worker inherits the caller's contextvars (the real pool does not; func_adl uses
         # none): this is how the simulator attributes an executor start to the call behind it
         ctx = contextvars.copy_context()
         t = threading.Thread(target=ctx.run, args=(run,), name="sim-make-sync")
         t.start()
+        go.release(); done.acquire()  # noqa: E702  (no Python frame is pushed in between)
         t.join()
         return f
 
